@@ -85,6 +85,14 @@ def classify(ctx, f, g, tree_l, got, ref, text):
         alt = isla_eval(ctx, text, to_dt(eps_reencode(tree_l, "empty")), g)
         if alt == ref and eps_reencode(tree_l, "empty") != tree_l:
             return KF_EPS
+        # both listed mechanisms at once (an unused inner quantifier below a match expression over an epsilon-expanded node):
+        # neither repair alone restores the specification's verdict, both together do
+        from islamon import patches
+        with patches.no_forall_drop():
+            alt = isla_eval(ctx, text, to_dt(eps_reencode(tree_l, "empty")), g)
+        if alt == ref and eps_reencode(tree_l, "empty") != tree_l:
+            ctx.count("classified_by_two_repairs")
+            return KF_EPS
     if uses(f, "after"):
         from islamon.checks.c04 import buggy_after
         import islamon.ref.predicates as R3
